@@ -5,7 +5,7 @@ from verif.core import Infra
 META = dict(
     technique="TLA+ reference predicates (RFC 5234/3986/9110 byte classes, textproto canonicalisation, HTML escaping) meta-checked by TLC; (a) TLC-enumerated vectors for all 256 bytes / all names <= NC / all texts <= NH replayed into the real tables and functions (B3); (b) the eight real lookup tables and real results on random long inputs dumped as NDJSON and validated by TLC (ByteClassTrace: \\A b \\in 0..255 : table[b] = Pred(b))",
     design_ref="DESIGN.md §4 C32",
-    text="ByteClass.tla defines each table by its RFC grammar (not by the generator). TLC checks facts of the reference itself (class cardinalities 10/52/22/66/75/77/224, case-map idempotence, Canon idempotent and case-only, HtmlEscape decodable) on every enumerated input. Go harness: every byte against the 8 tables and the functions built on them (ishex, unhex, lowercaseBytes, validHeaderFieldByte/ValueByte, isValidMethod, AppendQuotedArg, appendQuotedPath); every header name against normalizeHeaderKey(+Validated)/AppendNormalizedHeaderKey(+Bytes)/ResponseHeader.Set, every text against AppendHTMLEscape(+Bytes); net/textproto and html.EscapeString as second oracle (spec/stdlib disagreement = exit 2). Reverse direction: tables + random observations accepted by TLC line by line.",
+    text="ByteClass.tla defines each table by its RFC grammar (not by the generator). TLC checks facts of the reference itself (class cardinalities 10/52/22/66/75/77/224, case-map idempotence, Canon idempotent and case-only, HtmlEscape decodable) on every enumerated input. Go harness: every byte against the 8 tables and the functions built on them (ishex, unhex, lowercaseBytes, validHeaderFieldByte/ValueByte, isValidMethod, AppendQuotedArg, appendQuotedPath); every header name against normalizeHeaderKey(+Validated)/AppendNormalizedHeaderKey(+Bytes)/ResponseHeader.Set, every text against AppendHTMLEscape(+Bytes); net/textproto and html.EscapeString as second oracle (spec/stdlib disagreement = exit 2). Reverse direction: tables + random observations accepted by TLC line by line; also (i) lower-casing of byte STRINGS: every byte value at every position of strings of length 1..24 (constant and sliding patterns) through lowercaseBytes, URI.SetHost(Bytes)/SetSchemeBytes and URI.Parse, each observation validated by TLC as ToLower on every byte; (ii) every exported Header* constant name (parsed from headers.go) in four letter cases through every entry point (string- and []byte-keyed Set/Add on both header types, AppendNormalizedHeaderKey(+Bytes), reading the name from the wire): each distinct stored form is validated by TLC against Canon, and the entry points must agree (Peek/PeekBytes find, Del/DelBytes remove what the other kind of key stored).",
     note="Trusted: the TLA+ transcription of the RFC character classes (cross-checked by the cardinality facts and by the stdlib second oracle), TLC, Go toolchain. Names containing CR/LF are not part of the comparison (the code rewrites them to SP on purpose; the property speaks about tokens).",
 )
 
